@@ -1601,6 +1601,7 @@ int32_t tls13ParseServerName(ssl_t *ssl,
             psTraceErrr("Out of mem\n");
             goto out_internal_error;
         }
+        copiedLen = hostNameLen; /* in: capacity of the target, out: copied */
         psParseBufCopyN(pb,
                 hostNameLen,
                 (unsigned char*)ssl->expectedName,
